@@ -643,6 +643,36 @@ CPlan gen(uint64_t seed, bool failing) {
     }
     if (failing) for (size_t i = ph; i < p.ops.size(); i++) if (r.chance(1, 12)) p.ops[i].failk = r.range(1, 2);
   }
+  // empty cycles of the object stack: finished objects in the first segment, a top object that moves to later
+  // segments and outgrows them, then OS_EMPTY and appends of sizes around what the first segment holds
+  if ((focus == 0 || focus == 2) && r.chance(1, 4)) {
+    size_t ph = p.ops.size();
+    COp o; o.kind = OS_DELETE_; p.ops.push_back(o);
+    o = COp(); o.kind = OS_CREATE_; o.a = r.range(0, 64); p.ops.push_back(o);
+    int rounds = r.range(2, 6);
+    for (int k = 0; k < rounds; k++) {
+      int small = r.range(0, 3);
+      for (int i = 0; i < small; i++) {
+        o = COp(); o.kind = OS_ADD_MEM; o.bytes = bytes(12); p.ops.push_back(o);
+        o = COp(); o.kind = OS_FINISH; p.ops.push_back(o);
+      }
+      int grow = r.range(1, 4);
+      for (int i = 0; i < grow; i++) {
+        o = COp();
+        if (r.chance(1, 3)) { o.kind = OS_EXPAND; o.a = r.range(20, 900); }
+        else { o.kind = r.chance(1, 4) ? OS_ADD_STR : OS_ADD_MEM; o.bytes = bytes(r.chance(1, 2) ? 700 : 90); }
+        p.ops.push_back(o);
+      }
+      if (r.chance(1, 3)) { o = COp(); o.kind = OS_FINISH; p.ops.push_back(o); }
+      o = COp(); o.kind = OS_EMPTY_; p.ops.push_back(o);
+      int after = r.range(1, 5);
+      for (int i = 0; i < after; i++) {
+        o = COp(); o.kind = r.chance(1, 5) ? OS_ADD_BYTE : OS_ADD_MEM; o.a = r.range(0, 255); o.bytes = bytes(r.chance(1, 3) ? 300 : 48); p.ops.push_back(o);
+        if (r.chance(1, 2)) { o = COp(); o.kind = OS_FINISH; p.ops.push_back(o); }
+      }
+    }
+    if (failing) for (size_t i = ph; i < p.ops.size(); i++) if (r.chance(1, 12)) p.ops[i].failk = r.range(1, 2);
+  }
   // make sure the containers exist early
   COp c; c.kind = HT_CREATE; c.a = r.range(0, 8); c.b = (long)r.below(4);
   p.ops.insert(p.ops.begin(), c);
